@@ -390,7 +390,7 @@ class Schema(dict, metaclass=LogicalMeta):
                 )
             super().__delitem__(field.name)
 
-        if field.name in self.__dict__:
+        if field.attname in self.__dict__:
             self.__dict__.pop(field.attname)
 
     def __delitem__(self, key: str):
@@ -429,7 +429,10 @@ class Schema(dict, metaclass=LogicalMeta):
                 f"{self.__name__}: Attempt to delete required schema key: {repr(key)}"
             )
         args = () if unprovided(default) else (default,)
-        return super().pop(field.name, *args)
+        value = super().pop(field.name, *args)
+        if field.attname in self.__dict__:
+            self.__dict__.pop(field.attname)
+        return value
 
     def update(self, __m=None, **kwargs):
         if self.__options__.immutable:
